@@ -71,6 +71,29 @@ fn case(words: &[u16]) -> Case {
     Case { sc, module, kind, warm }
 }
 
+
+/// Cases aimed at the trust anchors themselves: two TALs whose trust-anchor certificates live in
+/// different rsync modules, a cold cache, one of the two modules broken (so that TAL has no usable
+/// trust anchor at all), mostly a single validation thread.
+fn ta_case(words: &[u16]) -> Option<Case> {
+    let mut c = case(words);
+    let roots: Vec<usize> = c.sc.cas.iter().enumerate().filter(|(_, ca)| ca.parent.is_none()).map(|(i, _)| i).collect();
+    if roots.len() < 2 {
+        return None;
+    }
+    let mut d = D::new(words);
+    for _ in 0..9 {
+        d.next();
+    }
+    c.sc.cas[roots[0]].module = 0;
+    c.sc.cas[roots[1]].module = 1;
+    c.module = d.below(2);
+    c.kind = d.below(5) as u8;
+    c.warm = false;
+    c.sc.cfg.threads = d.pick(&[1usize, 1, 2]);
+    Some(c)
+}
+
 /// CAs published in the broken module, and their descendants.
 fn affected(sc: &Scenario, module: usize) -> BTreeSet<usize> {
     let mut res = BTreeSet::new();
@@ -157,7 +180,7 @@ fn prop_opt(c: &Case, info: &mut CaseInfo, run_known: bool) -> Verdict {
 }
 
 pub fn run(ctx: &Ctx, rep: &mut Report, replay: Option<&serde_json::Value>) {
-    rep.rule("pairs of runs over identical E-rpki trees (1-2 TALs, up to 8 CAs over 3 rsync modules) from identical pre-states (empty or warmed cache): one clean, one where a chosen module is unreachable / serves garbage / serves truncated files / withholds everything but manifests / serves files with flipped bytes / additionally publishes a CA chain deeper than max-ca-depth / contains a CA certificate whose SIA claims a publication point below the issuer's manifest file; metamorphic oracle: the run succeeds and every item owned by a CA that is neither published in the broken module nor a descendant of one is served identically in both runs; non-trivial = the broken module hosts a CA and an unrelated CA with payload exists; distinct by serialised case");
+    rep.rule("pairs of runs over identical E-rpki trees (1-2 TALs, up to 8 CAs over 3 rsync modules) from identical pre-states (empty or warmed cache): one clean, one where a chosen module is unreachable / serves garbage / serves truncated files / withholds everything but manifests / serves files with flipped bytes / additionally publishes a CA chain deeper than max-ca-depth / contains a CA certificate whose SIA claims a publication point below the issuer's manifest file; metamorphic oracle: the run succeeds and every item owned by a CA that is neither published in the broken module nor a descendant of one is served identically in both runs; non-trivial = the broken module hosts a CA and an unrelated CA with payload exists; plus 64 (thorough 1000) cases with two TALs whose trust-anchor certificates sit in different modules, a cold cache, one of these modules broken and mostly one validation thread (a TAL without any usable trust anchor); distinct by serialised case");
     rep.assume("slots of different CAs never overlap, so the unsafe-VRP filter can only remove items of affected CAs (C08 covers overlapping resources)");
     ctx.shrink_iters.store(100, std::sync::atomic::Ordering::Relaxed);
     if let Some(v) = replay {
@@ -179,6 +202,14 @@ pub fn run(ctx: &Ctx, rep: &mut Report, replay: Option<&serde_json::Value>) {
         run_case(ctx, rep, "pairs", &d, |c, i| prop_opt(c, i, true));
     }
     run_prop_par(ctx, rep, "pairs", ctx.tier.pick(200, 4000), 8, || genome(200).prop_map(|w| case(&w)), prop);
+    if !rep.violated() {
+        // same oracle and case type (replays as "pairs"): a whole TAL loses its trust anchor
+        run_prop_par(ctx, rep, "pairs", ctx.tier.pick(64, 1000), 8, || genome(200).prop_filter_map("two TALs", |w| ta_case(&w)), |c, i| {
+            i.class("ta_module_broken");
+            i.class(format!("threads={}", c.sc.cfg.threads));
+            prop(c, i)
+        });
+    }
     rep.rule("(rrdp) pairs of runs over identical trees in which every CA is published through one of 2 RRDP repositories with chance 1/2 (rrdp-fallback in {stale, never, new}), from identical pre-states (empty cache, or warmed cache followed by a new RRDP session so that the repository must be fetched again): one clean, one where a chosen RRDP repository answers 500 for the notification / serves garbage as snapshot / lists wrong hashes / cuts the snapshot transfer / answers 404 for everything; same metamorphic oracle: the run succeeds and every item of a CA that is neither published through the broken repository nor a descendant of such a CA is served identically; non-trivial = the broken repository publishes a CA whose chain is intact and an unrelated CA with payload exists");
     run_prop_par(ctx, rep, "rrdp", ctx.tier.pick(100, 2000), 8, || (genome(200), rrdp_genome(), genome(4)).prop_map(|(w, r, k)| rcase(&w, &r, &k)), rprop);
 }
